@@ -19,8 +19,10 @@ fn d(prop: DProp, enumerate: bool, q: u64, t: u64) -> Plan {
 
 pub fn plans(prop: &str) -> Vec<Plan> {
     match prop {
-        "C05" => vec![d(DProp::C05, false, 200_000, 4_000_000), d(DProp::C05, true, 200_000, 7 * 1_048_576)],
-        "C15" => vec![d(DProp::C15, false, 200_000, 4_000_000), d(DProp::C15, true, 200_000, 7 * 1_048_576)],
+        "C05" => vec![d(DProp::C05, false, 200_000, 4_000_000), d(DProp::C05, true, 200_000, 7 * 1_048_576),
+            Plan { scenario: Box::new(crate::giant::GiantScenario { c15: false }) as Box<dyn Scenario>, runs_quick: 3, runs_thorough: 3 }],
+        "C15" => vec![d(DProp::C15, false, 200_000, 4_000_000), d(DProp::C15, true, 200_000, 7 * 1_048_576),
+            Plan { scenario: Box::new(crate::giant::GiantScenario { c15: true }) as Box<dyn Scenario>, runs_quick: 3, runs_thorough: 3 }],
         "C06" => vec![h(HProp::C06, 400_000, 8_000_000)],
         "C13" => vec![h(HProp::C13, 200_000, 4_000_000)],
         "C02" => vec![r(RProp::C02, 90_000, 4_000_000)],
